@@ -119,6 +119,10 @@ TargetTags(op) ==
       [] op = "Crypt" -> {"C12"}
       [] OTHER -> {}
 
+\* "identical ... in key-derivation inputs" is part of the phrase round trip (C01) and of the storage round trip
+\* (C06): a decoded or loaded seed whose KDF inputs are off (dirty padding ...) breaks them, a created one does not
+PathTags(tt) == (tt \cap {"C06"}) \cup (IF "C08" \in tt THEN {"C01"} ELSE {})
+
 ObservedSeed(p) ==      \* the abstract seed as the KDF inputs show it
     [ secret   |-> SubSeq(p.pw, 1, 19),
       birthday |-> (p.salt[21] + 256 * p.salt[22]) % 1024,
@@ -134,10 +138,10 @@ WellShapedKdfInputs(p) ==
 EntryCondsObs(p, s, tt, imgOK, kdfOK) ==
     << Cond("seed-state", {"C13"} \cup tt, imgOK \/ kdfOK),
        Cond("serialisation-of-the-seed", {"C06", "C13"} \cup tt, kdfOK => imgOK),
-       Cond("kdf-inputs-of-the-seed", {"C04", "C13"}, imgOK => kdfOK),
+       Cond("kdf-inputs-of-the-seed", {"C04", "C13"} \cup PathTags(tt), imgOK => kdfOK),
        \* the 13 bytes after the secret are part of the KDF password: a constructor that leaves what the
        \* allocator handed out there relies on fresh memory being zero
-       Cond("secret-padding-is-zero", {"C04", "C13", "C15"}, Len(p.pw) = 32 => SubSeq(p.pw, 20, 32) = Zeros(13)),
+       Cond("secret-padding-is-zero", {"C04", "C13", "C15"} \cup PathTags(tt), Len(p.pw) = 32 => SubSeq(p.pw, 20, 32) = Zeros(13)),
        Cond("birthday-of-the-seed", {"C11", "C13"}, FromLimbs16(p.bd) = TimeOfBirthday(s.birthday)),
        Cond("features-of-the-seed", {"C10", "C13"},
             p.ft = s.features % 8 /\ p.enc = (IF IsEncrypted(s.features) THEN 1 ELSE 0)) >>
@@ -201,6 +205,15 @@ FaultTags(op) ==
       [] op = "inject" -> {"C19", "C07", "C13", "C14"}
       [] OTHER -> {"C13", "C14"}
 
+\* library state written by an operation that has none to write: in concurrent use the operation's own outputs are
+\* at the mercy of the other threads (a shared salt or phrase buffer ...), so its own property is gone as well
+GlobalWriteTags(op) ==
+    CASE op = "keygen" -> {"C04"}
+      [] op = "encode" -> {"C03"}
+      [] op \in {"decode", "decodex"} -> {"C09"}
+      [] op = "crypt" -> {"C12"}
+      [] OTHER -> {}
+
 \* observers of the concurrent runs: a store into write-protected library data, a ThreadSanitizer report
 TFault ==
     /\ ~skip \/ ObserverFault
@@ -208,7 +221,7 @@ TFault ==
     /\ OnVerdict(Verdict(IF Ev.what = "serial-mismatch"
                          THEN << Cond("thread-results-equal-serial-execution", {"C20"}, FALSE) >>
                          ELSE IF Ev.what = "global-write"
-                         THEN << Cond("library-static-data-written-while-threads-run", {"C20", "C13"}, FALSE) >>
+                         THEN << Cond("library-static-data-written-while-threads-run", {"C20", "C13"} \cup GlobalWriteTags(Ev.op), FALSE) >>
                          ELSE IF Ev.what = "race"
                          THEN << Cond("data-race-reported", {"C20"}, FALSE) >>
                          ELSE << Cond("call-crashed-or-hung", FaultTags(Ev.op) \cup (IF Ev.op = "threads" THEN {"C20"} ELSE {}), FALSE) >>),
@@ -323,7 +336,9 @@ TWords ==
 
 FindConds(L, e, f) ==
     << Cond("token-resolves-by-the-published-rule",
-            IF \E i \in f : L.words[i] = e.tok THEN {"C07", "C08"} ELSE {"C08"},
+            \* (a list word that does not resolve to its own index: two words share an index, and replacing one by the
+            \* other goes unnoticed by the checksum - C02)
+            IF \E i \in f : L.words[i] = e.tok THEN {"C07", "C08", "C02"} ELSE {"C08"},
             IF f = {} THEN e.ret = 0 - 1 ELSE \E i \in f : e.ret = i - 1) >>
 
 TFind ==
